@@ -47,3 +47,48 @@ Proof.
       assert (j <= e / interval) by (apply Z.div_le_lower_bound; nia). lia.
     + lia.
 Qed.
+
+(* a stage: a trigger of constant value k that stops evaluating dur after its first evaluation
+   (the stage's context ends) requests at most k (1 + dur / interval) in all *)
+Lemma requests_const k : forall evs n,
+  zsum (requests (loop_actions (fun _ => k) n evs)) = k * Z.of_nat (length (eval_times (loop_actions (fun _ => k) n evs))).
+Proof.
+  induction evs as [|ev evs IH]; intros n; [cbn; lia|].
+  destruct ev as [t|]; [|cbn; lia].
+  cbn [loop_actions requests eval_times flat_map app].
+  fold (requests (loop_actions (fun _ => k) (S n) evs)). fold (eval_times (loop_actions (fun _ => k) (S n) evs)).
+  rewrite zsum_cons, IH. cbn [length]. lia.
+Qed.
+
+Lemma count_le_all bound l : Forall (fun t => t <= bound) l -> count_le bound l = Z.of_nat (length l).
+Proof.
+  unfold count_le. induction 1 as [|x l Hx _ IH]; [reflexivity|].
+  cbn [zcount length]. assert (E : (x <=? bound) = true) by lia. rewrite E, IH. lia.
+Qed.
+
+Lemma stage_bound k t0 interval dur evs :
+  0 < interval -> 0 <= dur -> 0 <= k -> ticks_not_early t0 interval 1 evs ->
+  Forall (fun t => t <= t0 + dur) (eval_times (worker_actions (fun _ => k) t0 evs)) ->
+  zsum (requests (worker_actions (fun _ => k) t0 evs)) <= k * (1 + dur / interval).
+Proof.
+  intros Hi Hd Hk Hn Hall.
+  pose proof (count_le_all _ _ Hall) as Hc.
+  unfold worker_actions in *. cbn [eval_times requests flat_map app] in *.
+  fold (eval_times (loop_actions (fun _ => k) 1 evs)) in *. fold (requests (loop_actions (fun _ => k) 1 evs)).
+  rewrite zsum_cons, requests_const.
+  inversion Hall as [|x l Hx Hrest]; subst.
+  pose proof (count_le_all _ _ Hrest) as Hc2.
+  pose proof (loop_count (fun _ => k) interval t0 dur Hi evs 1%nat 1 Hn ltac:(lia)) as H.
+  assert (0 <= dur / interval) by (apply Z.div_pos; lia).
+  rewrite Hc2 in H. nia.
+Qed.
+
+Lemma stage_count_sound k t0 interval dur evs got slack :
+  0 < interval -> 0 <= dur -> 0 <= k -> 0 <= slack -> ticks_not_early t0 interval 1 evs ->
+  Forall (fun t => t <= t0 + dur) (eval_times (worker_actions (fun _ => k) t0 evs)) ->
+  got <= zsum (requests (worker_actions (fun _ => k) t0 evs)) + slack ->
+  stage_count_ok k interval dur got slack = true.
+Proof.
+  intros Hi Hd Hk Hs Hn Hall Hg. unfold stage_count_ok.
+  pose proof (stage_bound k t0 interval dur evs Hi Hd Hk Hn Hall). lia.
+Qed.
